@@ -65,7 +65,7 @@ class Task:
 
 
 class Sim:
-    def __init__(self, tape, policy=None, step_cap=20000, wall_timeout=120.0,
+    def __init__(self, tape, policy=None, step_cap=20000, wall_timeout=1500.0,
                  log_schedule=True):
         self.tape = tape
         self.tasks = []
